@@ -16,6 +16,8 @@ import (
 	"git.defalsify.org/vise.git/asm"
 	"git.defalsify.org/vise.git/vm"
 	"pgregory.net/rapid"
+
+	"verifharness/refdec"
 )
 
 // runOverlapped calls work(i) rounds times on its own goroutine for every i < n, all
@@ -196,4 +198,86 @@ func runConcC14(t *testing.T) {
 
 func runConcC16(t *testing.T) {
 	RunProp(t, "C16", "conc", pick(40, 600), genC16Conc, checkC16Conc)
+}
+
+// --- C14: integer widths ---------------------------------------------------------------
+//
+// vm.NewLine writes an integer argument in as many bytes as the caller hands it (0..4, the
+// value 0 also in no byte at all, any value also with leading zero bytes); every such
+// encoding must decode to the value and consume exactly its own bytes.
+
+type C14Width struct {
+	Op    uint16 `json:"op"` // LOAD, CROAK or CATCH
+	N     uint32 `json:"n"`
+	Width int    `json:"width"`
+	Mode  bool   `json:"mode"`
+}
+
+func checkC14Width(c C14Width) (o Outcome) {
+	if c.Width < 0 || c.Width > 4 || (c.Width < 4 && uint64(c.N) >= uint64(1)<<(8*uint(c.Width))) {
+		o.Discard = "value-does-not-fit-width"
+		return
+	}
+	if c.Op != refdec.LOAD && c.Op != refdec.CROAK && c.Op != refdec.CATCH {
+		o.Discard = "no-integer-argument"
+		return
+	}
+	b := make([]byte, c.Width)
+	for i := 0; i < c.Width; i++ {
+		b[c.Width-1-i] = byte(c.N >> (8 * uint(i)))
+	}
+	want := Instr{Op: c.Op, Num: c.N}
+	var strs []string
+	var numargs []uint8
+	if c.Op != refdec.CROAK {
+		want.Sym = "foo"
+		strs = []string{"foo"}
+	}
+	if c.Op != refdec.LOAD {
+		want.Mode = c.Mode
+		numargs = []uint8{0}
+		if c.Mode {
+			numargs[0] = 1
+		}
+	}
+	enc := vm.NewLine(nil, c.Op, strs, b, numargs)
+	tail := vm.NewLine(nil, vm.MOVE, []string{"bar"}, nil, nil)
+	got, rest, err := vmDecodeOne(append(append([]byte{}, enc...), tail...))
+	if err != nil {
+		o.Viol = viol("vm-decode-error", "%v with its integer written in %d byte(s) (%x) does not decode: %v", want, c.Width, enc, err)
+		return
+	}
+	if got != want {
+		o.Viol = viol("vm-decode-args", "%v with its integer written in %d byte(s) (%x) decodes as %v", want, c.Width, enc, got)
+		return
+	}
+	if !bytes.Equal(rest, tail) {
+		o.Viol = viol("vm-decode-length", "%v with its integer written in %d byte(s) (%x): the decoder leaves %x, the next instruction is %x", want, c.Width, enc, rest, tail)
+		return
+	}
+	o.NonTrivial = c.Width != len(refdec.IntBytes(c.N))
+	o.class("width:%d", c.Width)
+	return
+}
+
+var _ = registerReplay("C14", "width", checkC14Width)
+
+func runC14Width(t *testing.T) {
+	RunEnum(t, "C14", "width", true, "LOAD/CROAK/CATCH x both modes x integer widths 0..4 x every boundary value that fits the width (non-canonical encodings: leading zero bytes, the value 0 in no byte)",
+		func(yield func(C14Width) bool) {
+			for _, op := range []uint16{refdec.LOAD, refdec.CROAK, refdec.CATCH} {
+				for _, mode := range []bool{false, true} {
+					for w := 0; w <= 4; w++ {
+						for _, n := range u32Boundaries {
+							if w < 4 && uint64(n) >= uint64(1)<<(8*uint(w)) {
+								continue
+							}
+							if !yield(C14Width{Op: op, N: n, Width: w, Mode: mode}) {
+								return
+							}
+						}
+					}
+				}
+			}
+		}, checkC14Width)
 }
